@@ -12,12 +12,12 @@ MANIFEST = {
             "pure host rule as [wx-host=..](,[is=..]) wrapped in the token chain of its enclosing at-rules, balanced "
             "braces) for sheets with :host at arbitrary at-rule depth.",
     "note": "NOT proved as one theorem: the multiset/partition statement over whole sheets (it is the executable "
-            "specification checked on every generated sheet). Known: D26 (`: host` with whitespace/comment after the colon is accepted); D14 (:host inside @layer/@container/@scope) was repaired",
+            "specification checked on every generated sheet). No known class is left for this property (D14 and D26 were repaired in /repo)",
     "technique": "Coq lemmas about the host branch (symbolic, all inputs) + executable-spec conformance of both outputs",
 }
 
 THEOREMS = ["C17_host_off_identity", "C17_host_pure_rule", "C17_host_emit_normal_unchanged",
-            "C17_host_combined_dropped_with_warning"]
+            "C17_host_combined_dropped_with_warning", "C17_host_spaced_not_converted", "C17_host_comment_still_host"]
 
 
 def run(res):
